@@ -99,12 +99,9 @@ func cmdCheck(args []string) int {
 	sem := make(chan struct{}, par)
 	var wg sync.WaitGroup
 	exe, _ := os.Executable()
-	for i, j := range jobs {
-		wg.Add(1)
-		go func(i int, j Job) {
-			defer wg.Done()
-			sem <- struct{}{}
-			defer func() { <-sem }()
+	tmoScale := 1
+	runJob := func(i int, j Job) {
+		func() {
 			ts := time.Now()
 			of := filepath.Join(outDir, fmt.Sprintf("%s.%s.json", j.key(), *tier))
 			os.Remove(of)
@@ -125,6 +122,7 @@ func cmdCheck(args []string) int {
 					tmo = 90000
 				}
 			}
+			tmo *= tmoScale
 			a = append(a, "-timeout-ms", strconv.Itoa(tmo))
 			if *tier == "thorough" {
 				a = append(a, "-cross", "400", "-cross-budget", "300")
@@ -157,9 +155,26 @@ func cmdCheck(args []string) int {
 				o.err = fmt.Sprintf("engine produced no result (%v): %s", err, lastLines(string(ob), 6))
 			}
 			outs[i] = o
+		}()
+	}
+	for i, j := range jobs {
+		wg.Add(1)
+		go func(i int, j Job) {
+			defer wg.Done()
+			sem <- struct{}{}
+			defer func() { <-sem }()
+			runJob(i, j)
 		}(i, j)
 	}
 	wg.Wait()
+	// a solver timeout (machine under load, unlucky query) is retried once, alone, with four times the
+	// per-query budget before the job is declared inconclusive
+	tmoScale = 4
+	for i, j := range jobs {
+		if outs[i].res != nil && strings.Contains(outs[i].res.Status, "solver unknown") {
+			runJob(i, j)
+		}
+	}
 
 	known := loadKnownSpecs()
 	knownByID := map[string]KnownSpec{}
